@@ -327,6 +327,13 @@ func rulesNewickWriter(c *Ctx, r *Report) {
 	}
 	r.analysed(fname(w))
 	s := newSymb(w)
+	// the node is the writer's receiver, or its argument when the writer is a method of the type that holds the buffer
+	nf := func(fn *ssa.Function, e *Sym) string { return paramFieldName(fn, nodeParamIndex(fn), e) }
+	ni := nodeParamIndex(w)
+	if ni < 0 {
+		r.undecided("END", fname(w), "anchor", c.pos(w.Pos()), "the writer does not take exactly one *Node")
+		return
+	}
 	// the children's part written by a method of the same node that the writer calls and that calls the writer
 	// back for each child: the two together are the writer
 	type wpart struct {
@@ -341,7 +348,11 @@ func rulesNewickWriter(c *Ctx, r *Report) {
 				return
 			}
 			h := cl.Call.StaticCallee()
-			if h == nil || h.Blocks == nil || h.Pkg != w.Pkg || h == n2t || h.Signature.Recv() == nil || len(cl.Call.Args) == 0 || cl.Call.Args[0] != ssa.Value(w.Params[0]) {
+			if h == nil || h.Blocks == nil || h.Pkg != w.Pkg || h == n2t {
+				return
+			}
+			hi := nodeParamIndex(h)
+			if hi < 0 || hi >= len(cl.Call.Args) || cl.Call.Args[hi] != ssa.Value(w.Params[ni]) {
 				return
 			}
 			if len(staticCallsTo(h, w)) > 0 {
@@ -364,7 +375,7 @@ func rulesNewickWriter(c *Ctx, r *Report) {
 		}
 		for _, pr := range [][2]ssa.Value{{bo.X, bo.Y}, {bo.Y, bo.X}} {
 			if isNilConst(pr[1]) {
-				if _, isSlice := pr[0].Type().Underlying().(*types.Slice); isSlice && recvFieldName(w, s.expr(pr[0])) == "Children" {
+				if _, isSlice := pr[0].Type().Underlying().(*types.Slice); isSlice && nf(w, s.expr(pr[0])) == "Children" {
 					nilTests = append(nilTests, c.pos(bo.Pos()))
 				}
 			}
@@ -427,7 +438,7 @@ func rulesNewickWriter(c *Ctx, r *Report) {
 				if bo, ok := iff.Cond.(*ssa.BinOp); ok {
 					x, y := s.expr(bo.X), s.expr(bo.Y)
 					op := bo.Op
-					isDist := func(e *Sym) bool { return recvFieldName(w, e) == "Distance" }
+					isDist := func(e *Sym) bool { return nf(w, e) == "Distance" }
 					isZero := func(e *Sym) bool { return e.Op == "const" && (e.Leaf == "0" || e.Leaf == "0/1") }
 					if isZero(x) && isDist(y) {
 						x, y = y, x
@@ -462,7 +473,7 @@ func rulesNewickWriter(c *Ctx, r *Report) {
 		okArgs := qname(distWrite.Call.StaticCallee()) == "fmt.Fprint" && len(args) == 2
 		if okArgs {
 			s0, isStr := constStr(args[0])
-			okArgs = isStr && s0 == ":" && recvFieldName(w, s.expr(args[1])) == "Distance"
+			okArgs = isStr && s0 == ":" && nf(w, s.expr(args[1])) == "Distance"
 		}
 		r.check(okArgs, "DIST0", fname(w), "distance text", c.pos(distWrite.Pos()), "the suffix is Fprint(\":\", Distance): a colon, then the shortest float text that parses back, no space", "the distance suffix is not Fprint(\":\", n.Distance)")
 	}
@@ -484,7 +495,7 @@ func rulesNewickWriter(c *Ctx, r *Report) {
 		case "(*bytes.Buffer).WriteString":
 			if inner, ok := cl.Call.Args[1].(*ssa.Call); !ok || inner.Call.StaticCallee() != n2t {
 				badWrites = append(badWrites, "WriteString of something other than nameToText(name) at "+c.pos(cl.Pos()))
-			} else if recvFieldName(w, s.expr(inner.Call.Args[0])) != "Name" {
+			} else if nf(w, s.expr(inner.Call.Args[0])) != "Name" {
 				badWrites = append(badWrites, "nameToText applied to something other than n.Name")
 			}
 		case "(*bytes.Buffer).Write", "(*bytes.Buffer).WriteRune":
@@ -528,15 +539,15 @@ func rulesNewickWriter(c *Ctx, r *Report) {
 	okRec := false
 	// the first child on its own, then the rest in a loop over Children[1:], after a test that there is a first
 	if len(rec) == 2 {
-		first, rest := s.expr(rec[0].Call.Args[0]), s.expr(rec[1].Call.Args[0])
+		first, rest := s.expr(rec[0].Call.Args[ni]), s.expr(rec[1].Call.Args[ni])
 		if first.Op != "load" || first.Args[0].Op != "index" || first.Args[0].Args[1].String() != "0" {
 			first, rest = rest, first
 			rec[0], rec[1] = rec[1], rec[0]
 		}
-		if first.Op == "load" && first.Args[0].Op == "index" && first.Args[0].Args[1].String() == "0" && recvFieldName(cw, first.Args[0].Args[0]) == "Children" &&
+		if first.Op == "load" && first.Args[0].Op == "index" && first.Args[0].Args[1].String() == "0" && nf(cw, first.Args[0].Args[0]) == "Children" &&
 			rest.Op == "load" && rest.Args[0].Op == "index" && rec[0].Block().Dominates(rec[1].Block()) && rec[0].Block() != rec[1].Block() {
 			sl, idx := rest.Args[0].Args[0], rest.Args[0].Args[1]
-			if slv, ok := sl.Val.(*ssa.Slice); ok && slv.High == nil && slv.Max == nil && slv.Low != nil && recvFieldName(cw, s.expr(slv.X)) == "Children" {
+			if slv, ok := sl.Val.(*ssa.Slice); ok && slv.High == nil && slv.Max == nil && slv.Low != nil && nf(cw, s.expr(slv.X)) == "Children" {
 				if k, ok := cInt(constVal(slv.Low)); ok && k == 1 {
 					var l *countedLoop
 					var why string
@@ -556,9 +567,9 @@ func rulesNewickWriter(c *Ctx, r *Report) {
 	}
 	if len(rec) == 1 {
 		w := cw
-		arg := s.expr(rec[0].Call.Args[0])
+		arg := s.expr(rec[0].Call.Args[ni])
 		// load(load(P0.f2)[idx])
-		if arg.Op == "load" && arg.Args[0].Op == "index" && recvFieldName(w, arg.Args[0].Args[0]) == "Children" {
+		if arg.Op == "load" && arg.Args[0].Op == "index" && nf(w, arg.Args[0].Args[0]) == "Children" {
 			idx := arg.Args[0].Args[1]
 			// range index from 0 over len(children)
 			if b, ok := idx.Val.(*ssa.BinOp); ok {
